@@ -24,6 +24,8 @@ pub trait Eng {
     /// Whether Miller-loop results may be combined with `+` (BLS: `+` multiplies; BN254: `Result`
     /// is the bare `Fq12`, whose `+` is the field addition).
     const ML_ADD_IS_PRODUCT: bool;
+    /// `G2Prepared::is_identity` (BLS: the `infinity` flag; BN254: the prepared type is `G2Affine`).
+    fn prepared_is_identity(p: &<Self::E as MultiMillerLoop>::G2Prepared) -> bool;
 }
 
 pub struct Bls;
@@ -34,6 +36,9 @@ impl Eng for Bls {
         crate::tower::bls12_out(&midnight_curves::bls12_381::Fp12::from(*g))
     }
     const ML_ADD_IS_PRODUCT: bool = true;
+    fn prepared_is_identity(p: &midnight_curves::G2Prepared) -> bool {
+        bool::from(p.is_identity())
+    }
 }
 
 pub struct Bn;
@@ -44,6 +49,9 @@ impl Eng for Bn {
         crate::tower::bn12_out(&g.verif_fq12())
     }
     const ML_ADD_IS_PRODUCT: bool = false;
+    fn prepared_is_identity(p: &midnight_curves::bn256::G2Affine) -> bool {
+        bool::from(p.is_identity())
+    }
 }
 
 type Fr<N> = <<N as Eng>::E as Engine>::Fr;
@@ -481,6 +489,41 @@ where
                 }
                 let pairs = gen_list(&mut rng, &r, n, *mode);
                 run_list::<N>(ctx, &mut rng, &r, &pairs, &format!("{mode:?}"));
+            }
+        }
+    }
+    // identities at every position of lists of every length 1..8: the identity in G1, in G2, and two
+    // consecutive identity pairs (one per group). Small discrete logarithms keep the model cheap; the
+    // control flow (which pairs are skipped, how the first term is assigned) is what is compared.
+    // A slip such as "skip the pair that follows an identity pair" changes every one of these lists
+    // in which the identity is not last.
+    {
+        let zero = BigUint::zero();
+        for n in 1..=8usize {
+            for pos in 0..n {
+                for kind in 0..3usize {
+                    if kind == 2 && (n < 2 || (quick && (pos + n) % 2 == 1)) {
+                        continue;
+                    }
+                    let mut pairs: Vec<(BigUint, BigUint)> =
+                        (0..n).map(|_| (BigUint::from(rng.gen_range(2u32..65536)), BigUint::from(rng.gen_range(2u32..65536)))).collect();
+                    match kind {
+                        0 => pairs[pos].0 = zero.clone(),
+                        1 => pairs[pos].1 = zero.clone(),
+                        _ => {
+                            pairs[pos].0 = zero.clone();
+                            pairs[(pos + 1) % n].1 = zero.clone();
+                        }
+                    }
+                    run_list::<N>(ctx, &mut rng, &r, &pairs, "IdentityAtPosition");
+                    ctx.count(&format!("list:{tag}:identity-at={}/{}", pos, n));
+                    // `G2Prepared::from` / `is_identity` of every second component
+                    for (_, y) in pairs.iter() {
+                        let q = g2_point::<N>(&mut rng, &r, y, 0);
+                        let is_id = N::prepared_is_identity(&Prep::<N>::from(q));
+                        ctx.case(&format!("prep-{tag}"), !y.is_zero(), &format!("prep {tag} {}", mzkh::big_hex(y)), if is_id { "1" } else { "0" });
+                    }
+                }
             }
         }
     }
